@@ -8,6 +8,7 @@ namespace Goat.Tie.C07
 open Goat
 
 theorem flag_recvRechecksDoneOnCtx : Generated.cfg.recvRechecksDoneOnCtx = true := by decide
+theorem flag_closedPrefersCtx : Generated.cfg.closedPrefersCtx = true := by decide
 theorem flag_finishOrder : Generated.cfg.finishOrder = true := by decide
 theorem flag_sendTeardownNoRst : Generated.cfg.sendTeardownNoRst = true := by decide
 theorem flag_forwardSelectsOnStreamDone : Generated.cfg.forwardSelectsOnStreamDone = true := by decide
